@@ -31,13 +31,18 @@ def griffe_mod():
 
 
 def _workdir() -> str:
+    """Directory for rendered packages: below the parent's scratch (X02_WORKDIR) when run from the pool."""
     if "wd" not in _G:
         from gverif.common import scratch_root  # noqa: PLC0415
 
-        _G["wd"] = tempfile.mkdtemp(prefix="x02-", dir=scratch_root())
-        import atexit  # noqa: PLC0415
+        base = os.environ.get("X02_WORKDIR")
+        if base and os.path.isdir(base):
+            _G["wd"] = tempfile.mkdtemp(prefix="w", dir=base)
+        else:
+            import atexit  # noqa: PLC0415
 
-        atexit.register(shutil.rmtree, _G["wd"], True)
+            _G["wd"] = tempfile.mkdtemp(prefix="x02-", dir=scratch_root())
+            atexit.register(shutil.rmtree, _G["wd"], True)
     return _G["wd"]
 
 
